@@ -51,3 +51,26 @@ def first_occurrence(S, arr, x, i):
 
 def absent(S, arr, x):
     return S.forall(0, S.n(arr), lambda k: S.at(arr, k) != x)
+
+
+def assume_order(S, arr, order):
+    """assume an order property of a label array and tag the array with it (the tag only selects which
+    case of a callee contract applies at a call site; the callee's requires is still *proved* there)"""
+    n = S.n(arr)
+    if order == "inc":
+        S.assume(strictly_increasing(S, arr), "labels strictly increasing")
+    elif order == "dec":
+        S.assume(n >= 2, "a decreasing axis has at least two labels (shorter axes count as increasing)")
+        S.assume(strictly_decreasing(S, arr), "labels strictly decreasing")
+    elif order == "unique":
+        S.assume(unique(S, arr), "labels pairwise distinct")
+    elif order == "any":
+        pass
+    else:
+        raise ValueError(order)
+    S.tag(arr, "order", order)
+
+
+def order_of(arr):
+    buf = getattr(arr, "buf", None)
+    return getattr(buf, "tags", {}).get("order") if buf is not None else None
